@@ -856,7 +856,7 @@ def gen_right(rng, im):
     return rm
 
 
-def gen_history(rng, length, solver="glpk", ctx=False, avoid=False, odd_p=0.15, weights=None):
+def gen_history(rng, length, solver="glpk", ctx=False, avoid=False, odd_p=0.15, weights=None, avoid_merge=False):
     """Draw a history while executing it on the real implementation.  avoid: never generate an operation that runs into a
     known C03 finding of the code under test (C01 / C02 runs); otherwise such operations are seldom."""
     im = Impl(solver)
@@ -872,8 +872,8 @@ def gen_history(rng, length, solver="glpk", ctx=False, avoid=False, odd_p=0.15, 
         t = trigger(im, o, depth)
         if t and (avoid or rng.random() < 0.75):
             return False
-        if merge_trigger(im, o) and rng.random() < 0.7:
-            return False
+        if merge_trigger(im, o) and (avoid_merge or rng.random() < 0.7):
+            return False            # (findings of merge as found belong to C01 / C02: never in the C03 run)
         res = im.apply(o)
         ops.append(o)
         if o[0] == "Enter":
@@ -1330,7 +1330,7 @@ def report(rep, args, cases, res, impl, own, prop):
     return n_fail, reported
 
 
-def _run(rep, args, rng, prop, own, sizes, ctx, avoid, weights=None):
+def _run(rep, args, rng, prop, own, sizes, ctx, avoid, weights=None, avoid_merge=False):
     t0 = time.time()
     probe_variant()
     n_corpus = 0
@@ -1344,7 +1344,8 @@ def _run(rep, args, rng, prop, own, sizes, ctx, avoid, weights=None):
         cases = load_corpus(CORPUS[prop])
         n_corpus = len(cases)
         for i in range(n):
-            cases.append(gen_history(rng, rng.randrange(5, L + 1), solver=SOLVERS[i % 2], ctx=ctx, avoid=avoid, weights=weights))
+            cases.append(gen_history(rng, rng.randrange(5, L + 1), solver=SOLVERS[i % 2], ctx=ctx, avoid=avoid, weights=weights,
+                                     avoid_merge=avoid_merge))
     res, faults, impl = evaluate(cases)
     if faults:
         fault(rep, faults, " " + prop)
@@ -1424,19 +1425,19 @@ def _run(rep, args, rng, prop, own, sizes, ctx, avoid, weights=None):
 
 def run_c01(rep, args, rng):
     """C01: the solver is the flux-balance problem of the content plus what the user added; codes 1, 2, 8."""
-    return _run(rep, args, rng, "C01", {1, 2, 8}, ((110, 13), (2500, 26)), ctx=True, avoid=True,
-                weights={"SwitchSolver": 16, "AddUserCons": 18})
+    return _run(rep, args, rng, "C01", {1, 2, 8}, ((200, 13), (4000, 26)), ctx=True, avoid=True,
+                weights={"SwitchSolver": 16, "AddUserCons": 18, "Merge": 12})
 
 
 def run(rep, args, rng):
     """C02: edits do what they document, cross references stay consistent; codes 1, 3, 7."""
-    return _run(rep, args, rng, "C02", {1, 3, 7}, ((110, 12), (2500, 24)), ctx=False, avoid=True,
+    return _run(rep, args, rng, "C02", {1, 3, 7}, ((200, 12), (4000, 24)), ctx=False, avoid=True,
                 weights={"Merge": 22, "RemoveRxn": 12, "AddRxn": 12})
 
 
 def run_ctx(rep, args, rng):
     """C03: leaving a block restores the model; codes 4, 5."""
-    return _run(rep, args, rng, "C03", {4, 5}, ((110, 16), (2500, 30)), ctx=True, avoid=False)
+    return _run(rep, args, rng, "C03", {4, 5}, ((160, 16), (4000, 30)), ctx=True, avoid=False, avoid_merge=True)
 
 
 if __name__ == "__main__":
